@@ -300,7 +300,7 @@ func extractToxics(repo string, o *out) {
 
 	// ------------------------------------------------------------ bandwidth.Pipe
 	{
-		var add, split, inst, instBytes, flush string
+		var add, split, inst, instBytes, flush, cutTested string
 		if fd := p.method("BandwidthToxic", "Pipe"); fd != nil && fd.Body != nil {
 			t := recvName(fd)
 			vars := map[string]string{t + ".Rate": "rate", "len(p.Data)": "len", "sleep": "acc"}
@@ -327,12 +327,49 @@ func extractToxics(repo string, o *out) {
 				}
 			}
 			// for int64(len(p.Data)) > t.Rate*100 { select { case <-time.After(X): ... p.Data[:E] ... sleep -= X
+			// or, reading the rate once per round:  for { rate := t.Rate; if <stop test> { break }; select { ... p.Data[:rate*100] ...
 			if fn := find(fd.Body, func(x ast.Node) bool {
 				f, ok := x.(*ast.ForStmt)
-				return ok && f.Cond != nil
+				if !ok {
+					return false
+				}
+				if f.Cond != nil {
+					return true
+				}
+				// the inner loop is the one whose body starts by copying the rate into a local variable
+				if len(f.Body.List) >= 2 {
+					if a, ok := f.Body.List[0].(*ast.AssignStmt); ok && a.Tok == token.DEFINE && len(a.Rhs) == 1 && show(fs, a.Rhs[0]) == t+".Rate" {
+						return true
+					}
+				}
+				return false
 			}); fn != nil {
 				f := fn.(*ast.ForStmt)
-				split, _ = p.tryCoq(f.Cond, vars, true)
+				cutVars := vars
+				if f.Cond != nil {
+					split, _ = p.tryCoq(f.Cond, vars, true)
+					cutTested = "false" // the cut re-reads the field the test read: an update in between changes it
+				} else {
+					a := f.Body.List[0].(*ast.AssignStmt)
+					local := show(fs, a.Lhs[0])
+					cutVars = map[string]string{local: "rate", "len(p.Data)": "len", "sleep": "acc"}
+					if br, ok := f.Body.List[1].(*ast.IfStmt); ok && br.Else == nil && len(br.Body.List) == 1 {
+						if b, ok := br.Body.List[0].(*ast.BranchStmt); ok && b.Tok == token.BREAK {
+							if c, _ := p.tryCoq(br.Cond, cutVars, true); c != "" {
+								split = "(negb " + c + ")"
+								cutTested = "true"
+							}
+						}
+					}
+					// no other read of the field inside the loop
+					if find(f.Body, func(x ast.Node) bool {
+						se, ok := x.(*ast.SelectorExpr)
+						return ok && show(fs, se) == t+".Rate" && se.Pos() > a.End()
+					}) != nil {
+						cutTested = ""
+					}
+				}
+				vars := cutVars
 				if c := find(f.Body, func(x ast.Node) bool { _, ok := isCall(fs, x, "time.After"); return ok }); c != nil {
 					if v, ok := constInt(fs, c.(*ast.CallExpr).Args[0]); ok {
 						inst = coqZ(v)
@@ -367,6 +404,8 @@ func extractToxics(repo string, o *out) {
 		o.emit("bw_split_test", "(len rate : Z) ", "bool", split, "((wrap64 (rate * 100)) <? len)", "", "")
 		o.emit("bw_instalment_ns", "", "Z", inst, "100000000", "", "")
 		o.emit("bw_instalment_bytes", "(rate : Z) ", "Z", instBytes, "(wrap64 (rate * 100))", "", "")
+		// does the cut p.Data[:E] use the very value the loop test used (true), or does it read the shared attribute again (false)?
+		o.emit("bw_cut_uses_tested_rate", "", "bool", cutTested, "true", "", "")
 		o.emit("flush_timeout_ns", "", "Z", flush, "5000000000", "", "")
 	}
 
